@@ -8,16 +8,19 @@ Lemma tstate_eqb_refl a : tstate_eqb a a = true.
 Proof. destruct a; reflexivity. Qed.
 Lemma trans_ok_refl t : trans_ok t t.
 Proof. unfold trans_ok, legal. rewrite tstate_eqb_refl. repeat split; auto. Qed.
+Lemma legal_not_requested a b : legal a b = true -> a <> REQUESTED -> b <> REQUESTED.
+Proof. destruct a, b; simpl; intros H1 H2; try discriminate; try congruence; intros H3; discriminate. Qed.
 Lemma legal_trans a b c : legal a b = true -> legal b c = true -> legal a c = true.
 Proof. destruct a, b, c; simpl; auto. Qed.
 Lemma legal_completed a b : legal a b = true -> completed a = true -> b = a.
 Proof. destruct a, b; simpl; intros H1 H2; try discriminate; reflexivity. Qed.
 Lemma trans_ok_trans a b c : trans_ok a b -> trans_ok b c -> trans_ok a c.
 Proof.
-  intros [A1 [A2 [A3 A4]]] [B1 [B2 [B3 B4]]].
-  split; [congruence|]. split; [congruence|]. split; [eapply legal_trans; eauto|].
-  intros Hc. destruct (A4 Hc) as [E1 [E2 E3]]. assert (Hc' : completed (t_state b) = true) by (rewrite E1; exact Hc).
-  destruct (B4 Hc') as [F1 [F2 F3]]. repeat split; congruence.
+  intros [A1 [A2 [A3 [A4 A5]]]] [B1 [B2 [B3 [B4 B5]]]].
+  split; [congruence|]. split; [congruence|]. split; [eapply legal_trans; eauto|]. split.
+  - intros Hc. destruct (A4 Hc) as [E1 [E2 E3]]. assert (Hc' : completed (t_state b) = true) by (rewrite E1; exact Hc).
+    destruct (B4 Hc') as [F1 [F2 F3]]. repeat split; congruence.
+  - intros Hr. rewrite (B5 (legal_not_requested _ _ A3 Hr)). exact (A5 Hr).
 Qed.
 
 (* ---------- forward tracking: every study persists, and in it every trial persists with a legal evolution *)
@@ -283,7 +286,10 @@ Qed.
 Definition activate (c : N) (t : trial) : trial := mkT (t_id t) ACTIVE c (t_params t) (t_meas t) (t_final t) (t_md t).
 
 Lemma activate_ok c t : t_state t = REQUESTED -> trans_ok t (activate c t).
-Proof. intros H. unfold trans_ok, activate. cbn [t_id t_params t_state t_meas t_final]. rewrite H. repeat split; auto; discriminate. Qed.
+Proof.
+  intros H. unfold trans_ok, activate. cbn [t_id t_params t_state t_meas t_final t_client]. rewrite H.
+  split; [reflexivity|]. split; [reflexivity|]. split; [reflexivity|]. split; [intros Hc; discriminate Hc|intros Hc; congruence].
+Qed.
 
 (* pool invariant: every queued trial still sits in the study as it was listed *)
 Definition pool_ok (k : skey) (pool : list trial) (s : state) : Prop :=
